@@ -422,6 +422,8 @@ class DMRGEngine(IterativeSweeps):
 
         """
         super().post_run_cleanup()
+        if self.mixer is not None:
+            self.mixer_deactivate()  # max_sweeps reached with enabled mixer; S is 1D again after mixer_cleanup()
         self._canonicalize(True)
         logger.info(f'{self.__class__.__name__} finished after {self.sweeps} sweeps, max chi={max(self.psi.chi)}')
         if (len(self.ortho_to_envs) > 0) and (self.sweep_stats['E'][-1] > -1e-8):
